@@ -198,6 +198,11 @@ def run(ctx):
                       {"kind": "run", "scenario": sc, "observed": {k: v for k, v in rr.items() if k != "scenario"}},
                       True, "forwarder.Run with a cancelled context: %s observed %s"
                       % (sc.get("name"), json.dumps({k: v for k, v in rr.items() if k != "scenario"})))
+    chk = None
+    if ctx.tier == "thorough" and not core_broken and info["rc"] == 0 and not ctx.replay:
+        chk = ctx.coqchk(GROUP, ["C11"])
+        if not chk["ok"] or chk.get("axioms") not in ("<none>",):
+            ob_failed.append("coqchk: %s" % chk)
     if ob_failed and not ctx.violations and not ctx.known_hits:
         ctx.violation("obligation-unchecked", dict(unchecked=ob_failed), False, ob_failed[0][:300])
     elif ob_failed:
@@ -224,6 +229,7 @@ def run(ctx):
             "wrapped call is made; connection attribution of ProxyTrace callbacks uses the handler goroutine id",
         ]),
         "theorems": info["theorems"],
+        "coqchk": chk,
         "table_obligations": obs,
         "unchecked_obligations": ob_failed,
         "evaluations": int(meta.get("cases", 0)) + int(meta.get("run_cases", 0)),
